@@ -92,9 +92,10 @@ CHECKS["C17"] = {
                     "point inequality is asserted only where the keyed input (topic|seed) differs as a byte string"],
     "units": [
         {"pkg": "pkg/rendezvous", "run": "^TestVerif_C17_", Q: {"timeout": 300}, T: {"timeout": 3000, "shards": 8}},
+        {"pkg": ".", "run": "^TestVerif_C17_", Q: {"timeout": 600}, T: {"timeout": 3000, "shards": 8}},
     ],
     "mandatory_labels": {"all": ["pure/period-boundary", "hist/observed-across-deadline", "hist/registered-in-earlier-period", "hist/cross-accept",
-                                 "hist/own-previous-in-grace", "hist/foreign", "static"]},
+                                 "hist/own-previous-in-grace", "hist/foreign", "static", "marshaler/across-deadline", "marshaler/exchange"]},
 }
 
 _SS = "pkg/secretstore"
